@@ -281,9 +281,9 @@ def check_support_filters(ctx):
         if isinstance(st, ast.Assign) and isinstance(st.targets[0], ast.Attribute) and isinstance(st.targets[0].value, ast.Name) and st.targets[0].value.id == "self":
             got[st.targets[0].attr] = (roles.canon(st.value, defs).replace(" ", ""), st.lineno)
     exp = {
-        "_coincident_indices": "_np.flatnonzero((%s))" % "*".join(sorted([T, R])),
-        "_edge_adjacency": "grid.edge_adjacency[(:,_np.flatnonzero((%s)))]" % "*".join(sorted(["%s[grid.edge_adjacency[(0,:)]]" % T, "%s[grid.edge_adjacency[(1,:)]]" % R])),
-        "_vertex_adjacency": "grid.vertex_adjacency[(:,_np.flatnonzero((%s)))]" % "*".join(sorted(["%s[grid.vertex_adjacency[(0,:)]]" % T, "%s[grid.vertex_adjacency[(1,:)]]" % R])),
+        "_coincident_indices": "nz((%s))" % "*".join(sorted([T, R])),
+        "_edge_adjacency": "grid.edge_adjacency[(:,nz((%s)))]" % "*".join(sorted(["%s[grid.edge_adjacency[(0,:)]]" % T, "%s[grid.edge_adjacency[(1,:)]]" % R])),
+        "_vertex_adjacency": "grid.vertex_adjacency[(:,nz((%s)))]" % "*".join(sorted(["%s[grid.vertex_adjacency[(0,:)]]" % T, "%s[grid.vertex_adjacency[(1,:)]]" % R])),
     }
     for k, e in exp.items():
         g = got.get(k)
